@@ -174,8 +174,9 @@ def judge_base(c, jr, ti):
 
 # ---------------------------------------------------------------------------------------------------
 # metamorphic variants
-def variants(ci, c, jr, rnd):
+def variants(ci, c, jr, rnd=None):
     reqs = []
+    rnd = case_rnd(c)
     for ti, (t, tr) in enumerate(zip(c['txns'], jr['txns'])):
         if c['kind'] == 'rules':
             if 'oracle' not in tr or crashy(tr) or 'crash' in tr['fm'] or 'crash' in tr['ms'] or \
@@ -312,9 +313,11 @@ def evaluate(cases, rnd, oracle=True):
                     names.setdefault(tr['state']['desc'], {}).setdefault(n['m'], (ci, ti))
     for d, m in names.items():
         if len(m) > 1:
-            (ci, ti) = sorted(m.values())[-1]
+            wit = sorted(m.values())
+            (ci, ti) = wit[-1]
             fails.append((ci, ti, 'unknown-name', {'why': 'equal descriptions, different Unknown merchant names', 'description': d,
-                                                   'names': sorted(m)}, None, None))
+                                                   'names': sorted(m)}, None,
+                          [{'kind': cases[a]['kind'], 'file': cases[a]['file'], 'txns': [cases[a]['txns'][b]]} for a, b in wit[:-1]]))
     stats = {'variants': {}, 'unknown_descriptions': len(names),
              'unknown_descriptions_seen_repeatedly': sum(1 for d in names if sum(
                  1 for c, jr in zip(cases, base) if 'txns' in jr for tr in jr['txns'] if tr['state']['desc'] == d) > 1)}
@@ -393,7 +396,7 @@ def main(tier):
         det0 = det
         c = cases[ci]
         f0 = c['file']
-        small = f0
+        small, case_out = f0, {'kind': c['kind'], 'file': f0, 'txns': c['txns']}     # full case unless the single-txn case reproduces
         if name != 'unknown-name':
             still = still_fails_factory(c['kind'], c['txns'][ti], name, run.seed)
             if still(f0):
@@ -404,10 +407,14 @@ def main(tier):
                     det = f2[0][3]
                     if f2[0][4] != sig:       # shrinking drifted to a differently-classified failure: keep the original
                         small, det = f0, det0
-        obj = {'kind': 'counterexample', 'oracle': name, 'case': {'kind': c['kind'], 'file': small, 'txns': [c['txns'][ti]]},
+                case_out = {'kind': c['kind'], 'file': small, 'txns': [c['txns'][ti]]}
+        obj = {'kind': 'counterexample', 'oracle': name, 'case': case_out,
                'text': render_rules(small) if c['kind'] == 'rules' else render_csv(small), 'detail': det,
                'n_failing': len(fl), 'shrunk_from': len(f0.get('rules', f0.get('rows', []))), 'seed': run.seed,
                'obligation': 'c01_* on the implementation', 'broken': broken}
+        if name == 'unknown-name':
+            obj['case'] = {'kind': c['kind'], 'file': f0, 'txns': [c['txns'][ti]]}
+            obj['more_cases'] = vcase
         if run.violation(name, obj, signature=sig):
             found_unlisted = True
 
@@ -488,8 +495,8 @@ def replay(path):
         main('quick')
         return 1
     c = obj['case']
-    _, fails, _ = evaluate([c], random.Random(obj.get('seed', 0)))
-    hit = [x for x in fails if x[2] == obj.get('oracle')] or fails
+    _, fails, _ = evaluate([c] + list(obj.get('more_cases') or []), random.Random(obj.get('seed', 0)))
+    hit = [x for x in fails if x[2] == obj.get('oracle') and x[4] == obj.get('signature')]
     print(json.dumps({'text': render_rules(c['file']) if c['kind'] == 'rules' else render_csv(c['file']), 'txn': c['txns'][0],
                       'failing_oracles': [[x[2], x[3], x[4]] for x in hit]}, indent=1, default=str))
     if hit:
